@@ -16,7 +16,7 @@ Definition det_next (table : list string) (m : nat) (o : dop string) : nat :=
   match o with
   | DGen n => m + n
   | DScan n act => m + keep_num (map act (firstn n (skipn m table)))
-  | DSaveReload => m
+  | DSaveReload | DLock | DUnlock | DFailed => m
   end.
 Fixpoint det_walk (table : list string) (m : nat) (ops : list (dop string)) (obs : list (nat * list string)) : option nat :=
   match ops, obs with
@@ -65,6 +65,7 @@ Definition idx_next (tables : list (list string)) (ms : list nat) (o : iop strin
   | ISaveReload => ms
   | ILock => ms
   | IUnlock => ms
+  | IFailed => ms
   end.
 Fixpoint chains_are (tables : list (list string)) (ms : list nat) (cs : list (list string)) : bool :=
   match ms, tables, cs with
